@@ -221,11 +221,13 @@ impl Account {
 			let key_hash = hash_key(&self.current_key)?;
 			let contacts_changed = ct_hash != acc_ep.contacts_hash;
 			let key_changed = key_hash != acc_ep.key_hash;
-			if contacts_changed {
-				update_account_contacts(endpoint, self).await?;
-			}
+			// The key roll-over comes first: it is authorised by the key the CA currently holds,
+			// while the contact update is signed with the current (new) key.
 			if key_changed {
 				update_account_key(endpoint, self).await?;
+			}
+			if contacts_changed {
+				update_account_contacts(endpoint, self).await?;
 			}
 		} else {
 			register_account(endpoint, self).await?;
